@@ -591,10 +591,20 @@ def run_property(prop, tier, seed):
     t0 = time.time()
     report = {"jobs": [], "samples": [], "evaluations": 0, "distinct_nontrivial": 0, "known_findings": [], "extra": {}}
     violations = []
-    for job in spec["jobs"]:
-        violations += run_job(prop, job, tier, seed, report, spec)
+    deferred = None
     for extra in spec.get("extra_phases", []):
         violations += extra(prop, tier, seed, report)
+    for job in spec["jobs"]:
+        try:
+            violations += run_job(prop, job, tier, seed, report, spec)
+        except HarnessError as e:
+            # an engine that no longer builds must not hide what the other engines found
+            deferred = e
+            break
+    if deferred is not None and not violations:
+        raise deferred
+    if deferred is not None:
+        log("# note: %s" % str(deferred).splitlines()[0])
     paths = []
     for v in violations[:12]:
         if len(paths) >= 3:
